@@ -46,3 +46,82 @@ mod proofs {
         kani::cover!(verdict == 2, "status present");
     }
 }
+
+#[cfg(kani)]
+mod order {
+    use super::*;
+    fn conf() -> Conf { Conf { client: v4([192, 0, 2, 7], 40000), secret: None, max_len: None, expiry: None } }
+
+    /// handshake step: any packet id other than 0x00 ends the connection without a reply and without consulting a service
+    #[kani::proof]
+    #[kani::stub(core::str::from_utf8, crate::verif_listen::model_from_utf8)]
+    #[kani::stub(std::io::Error::kind, tokio::__last_io_kind)]
+    #[kani::unwind(12)]
+    fn wrong_id_at_handshake() {
+        reset_world();
+        let id: u8 = kani::any();
+        kani::assume(id >= 1 && id <= 0x7f);
+        let mut s = Script::new();
+        s.begin(id); s.u8(0x82); s.u8(0x06); s.str4(Str4::lit("h")); s.be(25565, 2); s.u8(1); s.end();
+        let o = run_connection(s, [usize::MAX; 3], &conf());
+        assert!(o == Outcome::UnexpectedPacketId, "a packet other than Handshake ends the connection");
+        unsafe { assert!(OUT_N == 0, "without a reply"); assert!(LOG.status_calls == 0 && LOG.auth_calls == 0 && LOG.disc_calls == 0, "and without consulting any service"); }
+    }
+
+    /// status step: after a Status handshake any id other than Status Request (0x00) ends the connection without a reply
+    #[kani::proof]
+    #[kani::stub(core::str::from_utf8, crate::verif_listen::model_from_utf8)]
+    #[kani::stub(std::io::Error::kind, tokio::__last_io_kind)]
+    #[kani::unwind(12)]
+    fn wrong_id_at_status_request() {
+        reset_world();
+        let id: u8 = kani::any();
+        kani::assume(id >= 1 && id <= 0x7f);
+        let mut s = Script::new();
+        s.handshake(1, Str4::lit("h"), 25565);
+        s.begin(id); s.end();
+        let o = run_connection(s, [usize::MAX; 3], &conf());
+        assert!(o == Outcome::UnexpectedPacketId, "a packet other than Status Request ends the connection");
+        unsafe { assert!(OUT_N == 0 && LOG.status_calls == 0, "no reply, status service not consulted"); }
+    }
+
+    /// ping step: after the Status Response only Ping (0x01) is accepted; anything else ends the connection after the one response
+    #[kani::proof]
+    #[kani::stub(core::str::from_utf8, crate::verif_listen::model_from_utf8)]
+    #[kani::stub(std::io::Error::kind, tokio::__last_io_kind)]
+    #[kani::unwind(12)]
+    fn wrong_id_at_ping() {
+        reset_world();
+        unsafe { ENV.status = 1; }
+        let id: u8 = kani::any();
+        kani::assume(id != 1 && id <= 0x7f);
+        let mut s = Script::new();
+        s.handshake(1, Str4::lit("h"), 25565);
+        s.status_request();
+        s.begin(id); s.be(7, 8); s.end();
+        let o = run_connection(s, [usize::MAX; 3], &conf());
+        assert!(o == Outcome::UnexpectedPacketId, "a packet other than Ping ends the connection");
+        let mut out = Out::new();
+        let (rid, len) = out.frame();
+        assert!(rid == 0x00 && len == 5, "exactly the Status Response was sent");
+        out.skip(5);
+        assert!(out.at_end(), "and no Pong");
+    }
+
+    /// a next-state ordinal outside {1,2,3} is rejected: no reply, no service consulted
+    #[kani::proof]
+    #[kani::stub(core::str::from_utf8, crate::verif_listen::model_from_utf8)]
+    #[kani::stub(std::io::Error::kind, tokio::__last_io_kind)]
+    #[kani::unwind(12)]
+    fn unknown_next_state() {
+        reset_world();
+        let st: u8 = kani::any();
+        kani::assume(st == 0 || (st >= 4 && st <= 0x7f));
+        let mut s = Script::new();
+        s.handshake(st, Str4::lit("h"), 25565);
+        s.status_request();
+        let o = run_connection(s, [usize::MAX; 3], &conf());
+        assert!(o != Outcome::Ok, "unknown next state ends the connection with an error");
+        unsafe { assert!(OUT_N == 0 && LOG.status_calls == 0 && LOG.auth_calls == 0, "nothing sent, no service consulted"); }
+    }
+}
